@@ -1176,6 +1176,40 @@ fn emit_fn(ctx: &mut Ctx, d: &FnDir, out: &mut String) {
     }
 
     strip_attrs_block(&mut block);
+    // ---- prefix extraction (opt-in): keep the statements up to and including the first one containing the pattern; the remainder of the
+    //      body is replaced by a call to an auto-declared, unconstrained `<name>__rest` stub with the same signature (arbitrary result and
+    //      arbitrary effect on every `&mut` parameter). Sound for properties of the form "in this situation the function returns before doing anything".
+    let mut prefix_dropped: Option<usize> = None;
+    if let Some(pat) = d.opts.get("prefix") {
+        let patp = pretty(TokenStream::from_str(pat).unwrap_or_else(|_| die("bad prefix pattern")), 0);
+        let patp: String = patp.split_whitespace().collect::<Vec<_>>().join(" ");
+        let mut cut = None;
+        for (i, st) in block.stmts.iter().enumerate() {
+            let t: String = pretty(st.to_token_stream(), 0).split_whitespace().collect::<Vec<_>>().join(" ");
+            if t.contains(&patp) {
+                cut = Some(i);
+                break;
+            }
+        }
+        let cut = cut.unwrap_or_else(|| die(&format!("lost anchor: prefix pattern `{}` matches no top-level statement of {}", patp, d.path)));
+        let dropped = block.stmts.len() - (cut + 1);
+        block.stmts.truncate(cut + 1);
+        let mut args: Vec<syn::Ident> = vec![];
+        for inp in sig.inputs.iter() {
+            match inp {
+                syn::FnArg::Typed(pt) => match &*pt.pat {
+                    syn::Pat::Ident(pi) => args.push(pi.ident.clone()),
+                    syn::Pat::Wild(_) => die("prefix= needs named parameters (a `_` parameter cannot be forwarded)"),
+                    _ => die("prefix= needs simple parameter patterns"),
+                },
+                syn::FnArg::Receiver(_) => die("prefix= is implemented for free functions only"),
+            }
+        }
+        let rest = quote::format_ident!("{}__rest", sig.ident);
+        let tail: syn::Expr = syn::parse_quote!(#rest(#(#args),*));
+        block.stmts.push(syn::Stmt::Expr(tail, None));
+        prefix_dropped = Some(dropped);
+    }
     WildClosure.visit_block_mut(&mut block);
     if let Some(names) = d.opts.get("derefs") {
         let mut dv = DerefVars { names: names.split(',').map(|x| x.trim().to_string()).collect(), count: 0 };
@@ -1530,6 +1564,18 @@ fn emit_fn(ctx: &mut Ctx, d: &FnDir, out: &mut String) {
             head_vac = TokenStream::from_str(&hv.replace(fromp.trim(), to.trim())).unwrap_or_else(|_| die("sigsub result does not tokenize"));
             subs_done.push(format!("[signature] {} => {}", from.trim(), to.trim()));
         }
+    }
+    if let Some(n) = prefix_dropped {
+        let h = pretty(head.clone(), 0);
+        let name = sig.ident.to_string();
+        let h2 = h.replacen(&format!("fn {}", name), &format!("fn {}__rest", name), 1);
+        let _ = writeln!(out, "//vx-begin rest {}", qual);
+        let _ = writeln!(out, "// the last {} top-level statement(s) of {} are replaced by this unconstrained stub (prefix extraction)", n, qual);
+        let _ = writeln!(out, "    #[verifier::external_body]");
+        let _ = writeln!(out, "    {}", h2.trim());
+        let _ = writeln!(out, "    {{ unimplemented!() }}");
+        let _ = writeln!(out, "//vx-end rest {}", qual);
+        subs_done.push(format!("[prefix] last {} top-level statement(s) replaced by the unconstrained stub {}__rest", n, name));
     }
     emit_one(head, &d.spec, "fn", out);
     let trait_method = f.trait_.is_some() && !d.opts.contains_key("inherent") && !free;
